@@ -24,7 +24,7 @@ const FIELDS: &[(&[&str], K)] = &[
     (&["zz"], K::Absent), (&["User", "none"], K::Absent), (&["Ghost", "x"], K::Absent),
 ];
 const STRS: &[&str] = &["", "a", "ab", "abc", "gold", "active", "b", "x y", "Gold", "bc"];
-const ODD_STRS: &[&str] = &["null", "12", "n1", "3.5", "s2", "true", "User.name"];
+const ODD_STRS: &[&str] = &["null", "12", "n1", "3.5", "s2", "true", "User.name", "x>=y", "a==b", "<", "p != q"];
 const FLOATS: &[&str] = &["0.0", "0.5", "1.5", "2.0", "10.25", "0.1", "3.0", "100.0", "2.5"];
 
 thread_local! { static PRESENT: std::cell::RefCell<Vec<(&'static [&'static str], K)>> = std::cell::RefCell::new(vec![]); }
